@@ -42,6 +42,19 @@ pub struct WireState {
     pub livelock: bool,
     /// Do not log (used for handshake-free bulk phases).
     pub quiet: bool,
+    /// Scheduled fault: (item index, kind).  sink: the item with this index is refused with an error;
+    /// stream / eof: after this many items were delivered the stream fails / ends; stall: after this
+    /// many items were delivered nothing is delivered any more (silently).
+    pub fault_at: Option<(u64, FaultKind)>,
+    pub fault_fired: bool,
+}
+
+#[derive(Clone, Copy, Debug, PartialEq, Eq)]
+pub enum FaultKind {
+    Sink,
+    Stream,
+    Eof,
+    Stall,
 }
 
 #[derive(Clone)]
@@ -65,6 +78,8 @@ impl Wire {
             budget: 5_000,
             livelock: false,
             quiet: false,
+            fault_at: None,
+            fault_fired: false,
         })))
     }
 
@@ -154,6 +169,13 @@ impl Sink<Bytes> for ScriptSink {
 
     fn poll_ready(self: Pin<&mut Self>, cx: &mut Context<'_>) -> Poll<Result<(), io::Error>> {
         let mut w = self.0.0.lock().unwrap();
+        if let Some((n, FaultKind::Sink)) = w.fault_at {
+            if w.sent >= n && !w.sink_fault {
+                w.sink_fault = true;
+                w.fault_fired = true;
+                tr(format!("fault {} sink at={} t={}", w.from, n, crate::trace::now_ms()));
+            }
+        }
         if w.sink_fault {
             return Poll::Ready(Err(io::Error::new(io::ErrorKind::BrokenPipe, "injected sink error")));
         }
@@ -212,6 +234,31 @@ impl Stream for ScriptStream {
         let mut w = self.0.0.lock().unwrap();
         if w.stream_done {
             return Poll::Ready(None);
+        }
+        if let Some((n, kind)) = w.fault_at {
+            if w.delivered >= n && kind != FaultKind::Sink && !w.fault_fired {
+                w.fault_fired = true;
+                tr(format!(
+                    "fault {} {} at={} t={}",
+                    w.to,
+                    match kind {
+                        FaultKind::Stream => "stream",
+                        FaultKind::Eof => "eof",
+                        _ => "stall",
+                    },
+                    n,
+                    crate::trace::now_ms()
+                ));
+                match kind {
+                    FaultKind::Stream => w.stream_fault = Some(StreamFault::Error),
+                    FaultKind::Eof => w.stream_fault = Some(StreamFault::Eof),
+                    _ => {}
+                }
+                w.release = 0;
+            }
+            if w.fault_fired && kind == FaultKind::Stall {
+                w.release = 0;
+            }
         }
         if w.release > 0 && !w.q.is_empty() {
             let item = w.q.pop_front().unwrap();
